@@ -189,7 +189,8 @@ func runFkScenario(c *lib.Ctx, sc fkScenario, only []string) (int, int) {
 	srows := scan(rt, "s")
 	wantS := (len(tuples) + sc.every - 1) / sc.every
 	if len(trows) != len(tuples) || len(srows) != wantS {
-		lib.Infra("fkscan %s: setup failed: %d rows in t (want %d), %d in s (want %d)", sc.name, len(trows), len(tuples), len(srows), wantS)
+		c.Fail("", fkCase{Kind: "fkscan", Scenario: sc.name}, "foreign key scenario %s: after inserting distinct tuples and rows that reference them: %d rows in t (inserted %d), %d in s (inserted %d)", sc.name, len(trows), len(tuples), len(srows), wantS)
+		return 0, 0
 	}
 	show := func(rows []fkRow) string {
 		var ss []string
